@@ -40,3 +40,75 @@ Theorem C15_format_idents_local_like :
   forall f, In f format_idents -> fmt_ident_ok (snd f) = true.
 Proof. exact Proofs.format_idents_local_like. Qed.
 Print Assumptions C15_format_idents_local_like.
+
+Theorem C15_macros_through_derive_more_core :
+  forall t p, In t templates -> In p (macro_paths t) ->
+    exists name rest, p = "derive_more"%string :: "core"%string :: name :: rest.
+Proof. exact Proofs.macros_through_core. Qed.
+Print Assumptions C15_macros_through_derive_more_core.
+
+Theorem C15_derive_more_paths_exported :
+  forall t p, In t templates -> In p (dm_paths t) -> dm_path_exported dm_exports p = true.
+Proof. exact Proofs.dm_paths_exported. Qed.
+Print Assumptions C15_derive_more_paths_exported.
+
+Theorem C15_method_calls_classified :
+  forall t s, In t templates -> In s (method_sites t) ->
+    method_site_closed (global_typed_binders templates) s = true \/
+    In (method_key (t_file t, ms_name s)) known_method_sites.
+Proof. exact Proofs.method_calls_classified. Qed.
+Print Assumptions C15_method_calls_classified.
+
+Theorem C15_inherent_call_scope_independent :
+  forall i provides sc1 sc2, resolve_method (Some i) provides sc1 = resolve_method (Some i) provides sc2.
+Proof. exact Proofs.inherent_call_scope_independent. Qed.
+Print Assumptions C15_inherent_call_scope_independent.
+
+Theorem C15_trait_call_observes_scope :
+  forall c d : N, c <> d ->
+    let provides := fun _ : N => true in
+    resolve_method None provides {| mc_macro := []; mc_user := []; mc_prelude := [c] |} <>
+    resolve_method None provides {| mc_macro := []; mc_user := []; mc_prelude := [] |} /\
+    resolve_method None provides {| mc_macro := [c]; mc_user := []; mc_prelude := [] |} <>
+    resolve_method None provides {| mc_macro := [c]; mc_user := [d]; mc_prelude := [] |} /\
+    (forall i sc, resolve_method None provides {| mc_macro := [c]; mc_user := []; mc_prelude := [] |} <>
+                  resolve_method (Some i) provides sc).
+Proof. exact Proofs.trait_call_observes_scope. Qed.
+Print Assumptions C15_trait_call_observes_scope.
+
+Theorem C15_flagged_head_observes_scope :
+  forall (lb : list string) (h : head),
+    h_kind h <> HExtern ->
+    reserved (h_name h) = false ->
+    h_name h <> "Self"%string ->
+    mem (h_name h) lb = false ->
+    exists (H : string -> bool) (sc1 sc2 : scope),
+      (forall x, H x = true -> reserved x = false) /\
+      agree_on_nonprelude H sc1 sc2 /\ prelude_wf sc1 /\ prelude_wf sc2 /\
+      resolve lb sc1 h <> resolve lb sc2 h.
+Proof. exact Proofs.flagged_head_observes_scope. Qed.
+Print Assumptions C15_flagged_head_observes_scope.
+
+Theorem C15_extern_head_module_independent :
+  forall lb1 lb2 sc1 sc2 x,
+    (forall y, sc_extern sc1 y = sc_extern sc2 y) ->
+    resolve lb1 sc1 {| h_name := x; h_kind := HExtern |} = resolve lb2 sc2 {| h_name := x; h_kind := HExtern |}.
+Proof. exact Proofs.extern_head_module_independent. Qed.
+Print Assumptions C15_extern_head_module_independent.
+
+Theorem C15_introduced_generics_fresh :
+  forall (user_params : list string),
+    (forall u, In u user_params -> starts_dunder u = false) ->
+    forall g, In g (introduced_generics templates format_idents) -> ~ In g user_params.
+Proof. exact Proofs.introduced_generics_fresh. Qed.
+Print Assumptions C15_introduced_generics_fresh.
+
+Theorem C15_method_calls_closed_refuted :
+  exists t s, In t templates /\ In s (method_sites t) /\
+    t_file t = "error.rs"%string /\ ms_name s = "as_dyn_error"%string /\ ms_recv s = RUser /\
+    method_site_closed (global_typed_binders templates) s = false /\
+    (forall (c i : N) sc,
+       resolve_method None (fun _ => true) {| mc_macro := [c]; mc_user := []; mc_prelude := [] |} = MTrait c /\
+       resolve_method (Some i) (fun _ => true) sc = MInherent i).
+Proof. exact Proofs.method_calls_closed_refuted. Qed.
+Print Assumptions C15_method_calls_closed_refuted.
